@@ -90,11 +90,14 @@ def leanchecker(prop_id):
         return False, repr(exc)
 
 
-def run_streams(mod, prop_id, tier, seed, scale=1.0, use_model=True, only=None):
+def run_streams(mod, prop_id, tier, seed, scale=1.0, use_model=True, only=None, deadline=None):
+    """deadline (search passes only): stop generating further batches once it has passed"""
     results = []
     for stream in mod.streams(tier):
         if only and stream.name not in only:
             continue
+        if deadline is not None and time.time() > deadline:
+            break
         n = stream.thorough if tier == "thorough" else stream.quick
         n = max(1, int(n * scale))
         rng = common.seeded_rng(seed, prop_id, stream.name, scale)
@@ -104,7 +107,21 @@ def run_streams(mod, prop_id, tier, seed, scale=1.0, use_model=True, only=None):
             saved = stream.model_lines
             stream.model_lines = None
         try:
-            res = common.evaluate_stream(stream, cases)
+            if deadline is None:
+                res = common.evaluate_stream(stream, cases)
+            else:
+                res = None
+                batch = max(200, len(cases) // 20)
+                for i in range(0, len(cases), batch):
+                    part = common.evaluate_stream(stream, cases[i:i + batch])
+                    if res is None:
+                        res = part
+                    else:
+                        res.evaluations += part.evaluations
+                        res.failures.extend(part.failures)
+                        res.mismatches.extend(part.mismatches)
+                    if res.failures or time.time() > deadline:
+                        break
         finally:
             if not use_model:
                 stream.model_lines = saved
@@ -227,10 +244,16 @@ def check(mod, prop_id, tier, seed, t0, no_build=False):
         search_log = []
         # (a) neighbours of the mismatching inputs, (b) 10x sample, (c) thorough enumerations
         cand_streams = {m[0].name for m in mismatches} or None
+        budget = float(os.environ.get("VERIF_SEARCH_S", "150" if tier == "quick" else "900"))
+        deadline = time.time() + budget
         for scale, t in ((10.0, tier), (1.0, "thorough")):
+            if time.time() > deadline:
+                search_log.append("search budget exhausted")
+                break
             try:
                 more = run_streams(mod, prop_id, t, seed + 1, scale=scale, use_model=False,
-                                   only=cand_streams if scale == 10.0 and cand_streams else None)
+                                   only=cand_streams if scale == 10.0 and cand_streams else None,
+                                   deadline=deadline)
             except Exception as exc:  # pragma: no cover
                 search_log.append(f"search pass failed: {exc!r}")
                 continue
